@@ -138,6 +138,20 @@ func classifyCond(p *Program, cond ssa.Value, val bool) string {
 			return what + "!=nil"
 		}
 		if k, ok := b.(*ssa.Const); ok && k.Value != nil && k.Value.Kind() == constant.String {
+			// `x := ""; if c { x = f() }; if x != ""`: the comparison speaks about the only edge of the phi that
+			// is not a constant failing it
+			if phi, isPhi := stripConv(a).(*ssa.Phi); isPhi && !eq {
+				var live []ssa.Value
+				for _, e := range phi.Edges {
+					if ce, isC := e.(*ssa.Const); isC && ce.Value != nil && ce.Value.Kind() == constant.String && constant.StringVal(ce.Value) == constant.StringVal(k.Value) {
+						continue // this edge has the excluded value
+					}
+					live = append(live, e)
+				}
+				if len(live) == 1 {
+					a = live[0]
+				}
+			}
 			what := describeValue(p, a)
 			if what == "" {
 				return ""
